@@ -7,14 +7,87 @@
 package main
 
 import (
+	"context"
+	"fmt"
 	"os"
+	"time"
 
+	"github.com/oxia-db/oxia/proto"
+	"github.com/oxia-db/oxia/server"
+	"github.com/oxia-db/oxia/server/kv"
+	"github.com/oxia-db/oxia/zzverif/vsched"
+
+	"verif/lib/oxc"
+	"verif/lib/oxh"
 	"verif/lib/pipeh"
+	"verif/lib/sched"
 )
 
+// floorBody: a get with FLOOR comparison on a real RF=1 leader races with two committed writes. The database holds
+// i and j (i < j < k). The writer puts k, then deletes j. The floor of k is j, then k, then k: the answer i was
+// never true. The engine's calls are not instrumented; the point between getFloor's two looks at the database is a
+// hook (kv.VerifFloorHook).
+func floorBody() func(s *vsched.Sched) {
+	return func(s *vsched.Sched) {
+		s.Explore(false)
+		env := oxc.NewEnv(s)
+		kvf := oxc.NewObsFactory(env.Dir)
+		lc, err := server.NewLeaderController(server.Config{NotificationsRetentionTime: time.Hour}, "ns", 1, oxc.NewNet(), env.WalFactory("n1", 64*1024, true), kvf)
+		if err == nil {
+			_, err = lc.NewTerm(&proto.NewTermRequest{Namespace: "ns", Shard: 1, Term: 1, Options: &proto.NewTermOptions{EnableNotifications: true}})
+		}
+		if err == nil {
+			_, err = lc.BecomeLeader(context.Background(), &proto.BecomeLeaderRequest{Namespace: "ns", Shard: 1, Term: 1, ReplicationFactor: 1, FollowerMaps: map[string]*proto.EntryId{}})
+		}
+		if err == nil {
+			_, err = lc.WriteBlock(context.Background(), &proto.WriteRequest{Shard: oxh.I64(1), Puts: []*proto.PutRequest{{Key: "i", Value: []byte("1")}, {Key: "j", Value: []byte("2")}}})
+		}
+		if err != nil {
+			s.Fail("harness-setup", err.Error())
+			return
+		}
+		kv.VerifFloorHook = func() { s.Step(77) }
+		defer func() { kv.VerifFloorHook = nil }()
+		s.Settle()
+		s.Explore(true)
+		vsched.Go(func() {
+			_, _ = lc.WriteBlock(context.Background(), &proto.WriteRequest{Shard: oxh.I64(1), Puts: []*proto.PutRequest{{Key: "k", Value: []byte("3")}}})
+			_, _ = lc.WriteBlock(context.Background(), &proto.WriteRequest{Shard: oxh.I64(1), Deletes: []*proto.DeleteRequest{{Key: "j"}}})
+		})
+		rd := &reader{}
+		vsched.Go(func() {
+			lc.Read(context.Background(), &proto.ReadRequest{Shard: oxh.I64(1), Gets: []*proto.GetRequest{{Key: "k", ComparisonType: proto.KeyComparisonType_FLOOR, IncludeValue: true}}}, rd)
+		})
+		s.Settle()
+		s.Explore(false)
+		switch {
+		case !rd.done || rd.err != nil || len(rd.got) != 1:
+			s.Fail("harness-setup", fmt.Sprintf("the read did not complete: done=%v err=%v answers=%d", rd.done, rd.err, len(rd.got)))
+		case rd.got[0].Status != proto.Status_OK || (rd.got[0].GetKey() != "j" && rd.got[0].GetKey() != "k"):
+			s.Fail("floor-get-answer-never-true", fmt.Sprintf("Get(FLOOR k) answered status %v key %q while put(k) and delete(j) were committed, in that order, on a database holding i and j: the floor of k was j, then k", rd.got[0].Status, rd.got[0].GetKey()))
+		}
+		if len(rd.got) == 1 {
+			s.Data = "floor=" + rd.got[0].GetKey()
+		}
+		_ = lc.Close()
+	}
+}
+
+type reader struct {
+	got  []*proto.GetResponse
+	done bool
+	err  error
+}
+
+func (r *reader) OnNext(g *proto.GetResponse) error { r.got = append(r.got, g.CloneVT()); return nil }
+func (r *reader) OnComplete(err error)              { r.done, r.err = true, err }
+
 func main() {
+	pipeh.ExtraLeader = func(tier string) []sched.Scenario {
+		return []sched.Scenario{{Name: "floor-get-vs-put-and-delete", Cfg: vsched.Config{MaxSteps: 50000}, MaxDev: 3, Body: floorBody()}}
+	}
 	keep := map[string]bool{"leader-state-not-fold-of-log": true, "apply-out-of-order": true, "response-mismatch": true,
-		"acked-write-missing": true, "duplicate-offset": true, "committed-entry-not-applied": true, "harness-setup": true}
+		"acked-write-missing": true, "duplicate-offset": true, "committed-entry-not-applied": true, "harness-setup": true, "floor-get-answer-never-true": true}
 	os.Exit(pipeh.Main("C02", os.Getenv("VERIF_STAGE2") != "", keep,
 		"every schedule of 2-3 writers colliding on one key, the WAL sync thread, follower cursors and ack receivers with at most max_dev non-default scheduling choices on the real leader controller; at quiescence the leader's database must equal the fold of its committed log and every writer holds the response of its own request"))
 }
